@@ -122,6 +122,10 @@ def main():
             meta = json.load(open(os.path.join(d, "meta.json")))
             if only and meta["property"] not in only and name not in only:
                 continue
+            if meta.get("superseded"):
+                # a later repair of the library made this change harmless: kept for the record
+                print("%-28s %s %-12s %s" % (name, meta["property"], "superseded", meta["superseded"][:90]), flush=True)
+                continue
             try:
                 r = run_checks(d, [meta["property"]])
             except RuntimeError as ex:
